@@ -490,54 +490,37 @@ def ktable_terms(ix, R, kt, pfx='7'):
             dzok, key='path <- %s' % fmt(fl, gl['path']),
             detail='path is %s, the cross-section routine uses self.deltaz' % fmt(fl, gl['path']),
             loc=f.loc(kL.node))
-    # which contributions go through the k-distribution columns and which through contribute()
-    from sa.pattern import find
-    bnd, missing = find(f.node, [
-        "V_non = [V_c for V_c in self.contribution_list if not isinstance(V_c, V_mt)]"])
-    oksp = bnd is not None
-    if oksp:
-        # V_mt is AbsorptionContribution itself or a local bound to it
-        names = {bnd['V_mt']}
-        for n in ast.walk(f.node):
-            if isinstance(n, ast.Assign) and len(n.targets) == 1 and isinstance(n.targets[0], ast.Name) and \
-                    n.targets[0].id == bnd['V_mt']:
-                names.add(unparse(n.value))
-        oksp = 'AbsorptionContribution' in names
-        if not oksp:
-            missing = ['the split type is %s' % sorted(names)]
-        # the surface loop and both per-layer loops iterate that list
-        nonev = [e for e in fl.of('assign') if e.name == bnd['V_non']]
-        non = nonev[-1].value if nonev else code(fl, bnd['V_non'])
-        if len(nonev) != 1 or nonev[0].guards or nonev[0].loops:
-            oksp = False
-            missing = ['the non-molecule list is assigned %d times or conditionally' % len(nonev)]
-        its = [kt['surf'].loops[0].iter_rf[0]] + [e.loops[1].iter_rf[0] for e in kt['lay']]
-        if not all(fl.tab.equal(x, non) for x in its):
-            oksp = False
-            missing = ['contribute() loops iterate %s, not the non-molecule list' % sorted({fmt(fl, x) for x in its})]
-        # the molecule object is an element of contribution_list selected by that type
-        mol = [e for e in calls(fl, 'contribute') if e.loops and e.loops[0].kind == 'enumerate']
-        for e in mol:
-            rv = fmt(fl, e.recv_rf) if e.recv_rf is not None else ''
-            if 'self.contribution_list' not in rv or 'index(' not in rv:
-                oksp = False
-                missing = ['the k-table molecule object is %s' % rv]
-            # the k-distribution columns read that object's own opacities and weights
-            for p, a in (('sigma', 'sigma_xsec'), ('weights', 'weights')):
-                if fmt(fl, gl[p]) not in ('%s.%s' % (rv, a), 'getattr(%s, %s)' % (rv, a)):
-                    oksp = False
-                    missing = ['k-table %s is %s, not %s.%s' % (p, fmt(fl, gl[p]), rv, a)]
+    # which contributions go through the k-distribution columns and which through contribute(): stated on the values
+    # the loops walk and the object the columns read, whatever names or helpers they pass through
     split_stmt = ('contributions are split by type: everything that is not an AbsorptionContribution goes through '
                   'contribute(), the AbsorptionContribution (if present) through the k-distribution columns')
-    if bnd is None:
-        # the selection is written in a shape the matcher does not know: no evidence either way
-        R.error(pfx + '.split', 'SIB', site, split_stmt,
-                'the statement that builds the list of non-molecular contributions was not recognised: %s' % missing,
-                loc=f.loc())
-    else:
-        R.check(pfx + '.split', 'SIB', site, split_stmt,
-                oksp, key='; '.join(m[:60] for m in missing) or 'split on another type',
-                detail='no statements of the expected shape: %s' % missing, loc=f.loc())
+    missing = []
+    non_spec = spec(fl, '[c_ for c_ in self.contribution_list if not isinstance(c_, AbsorptionContribution)]')
+    its = [kt['surf'].loops[0].iter_rf[0]] + [e.loops[1].iter_rf[0] for e in kt['lay']]
+    for x in its:
+        if fl.tab.equal(x, non_spec):
+            continue
+        xa = atom_of(fl, x)
+        if xa is not None and xa.head == 'comp' and len(xa.args) == 3 and fl.tab.equal(xa.args[1], code(fl, 'self.contribution_list')):
+            missing.append('contribute() loops walk %s, not the contributions that are not an AbsorptionContribution' % fmt(fl, x)[:120])
+        elif fl.tab.equal(x, code(fl, 'self.contribution_list')):
+            missing.append('contribute() loops walk every contribution: the molecular absorption is counted through '
+                           'contribute() and again through the k-distribution columns')
+        else:
+            raise AnalysisError('the list the contribute() loops walk is not recognised: %s' % fmt(fl, x)[:160])
+    # the molecule object is an element of contribution_list selected by that type
+    mol = [e for e in calls(fl, 'contribute') if e.loops and e.loops[0].kind == 'enumerate']
+    for e in mol:
+        rv = fmt(fl, e.recv_rf) if e.recv_rf is not None else ''
+        if 'self.contribution_list' not in rv or 'index(' not in rv or 'AbsorptionContribution' not in rv:
+            raise AnalysisError('the k-table molecule object is not recognised: %s' % rv[:160])
+        # the k-distribution columns read that object's own opacities and weights
+        for p, a in (('sigma', 'sigma_xsec'), ('weights', 'weights')):
+            if fmt(fl, gl[p]) not in ('%s.%s' % (rv, a), 'getattr(%s, %s)' % (rv, a)):
+                missing.append('k-table %s is %s, not %s.%s' % (p, fmt(fl, gl[p])[:80], rv[:80], a))
+    R.check(pfx + '.split', 'SIB', site, split_stmt,
+            not missing, key='; '.join(m[:60] for m in missing),
+            detail='; '.join(missing), loc=f.loc())
     # I accumulation
     augs = [e for e in fl.of('aug') if e.loops == (kt['layer_loop'],) and e.op == 'Add'
             and e.value.mentions(lambda a: a.head == 'call' and a.extra and a.extra[0] == 'fn:black_body')]
